@@ -65,4 +65,10 @@ def units(ctx):
     us += [contract_unit(c, world_setup=colls3.setup)
            for c in colls3.predicate_contracts() + colls3.wrapper_contracts()
            if 'C13' in c.serves]
+    # equal dicts hash alike whatever their entry order (dict keys, set
+    # members, distinct / groupBy keys)
+    from contracts import utils as _u4
+    from vlib.pyvc.unit import contract_unit as _cu4
+    us += [_cu4(c, world_setup=_u4.setup) for c in _u4.contracts()
+           if 'FrozenDict.__hash__' in c.short]
     return us
